@@ -130,6 +130,29 @@ def run(chk):
             b_["checksums"] = {"sha256": "9" * 64}
             cdocs.append({"doc": doc, "cells": [[v1, a1], [v2, a2]]})
 
+    # ... at scale: the clashing pair sits in ONE long list (40, 100 entries) of a current document
+    for m in (40, 100):
+        for ver in ("1.1", "1.2"):
+            doc = DL.gen_images_doc(rng, Rr, version=ver)
+            cells = [(v, a) for v, arches in doc["payload"]["images"].items() for a, l in arches.items() if a != "src" and l]
+            if not cells:
+                continue
+            v1, a1 = cells[0]
+            first = doc["payload"]["images"][v1][a1][0]
+            lst = []
+            for i in range(m):
+                o = _copy.deepcopy(first)
+                o["path"] = "%s/%s/iso/many-%03d.iso" % (v1, a1, i)
+                o["disc_number"] = i + 1
+                o["disc_count"] = m
+                lst.append(o)
+            twin = _copy.deepcopy(lst[m - 3])
+            twin["path"] += ".twin"
+            twin["checksums"] = {"sha256": "8" * 64}
+            lst.append(twin)
+            doc["payload"]["images"][v1][a1] = lst
+            cdocs.append({"doc": doc, "cells": [[v1, a1], [v1, a1]]})
+
     def oracle_clash(c, r):
         ver = c["doc"]["header"]["version"]
         if ver == "1.0":
